@@ -158,7 +158,7 @@ impl Prop for C11 {
         "case = (piece type: Poly0..Poly7 or Log<Poly0..Poly8> (type is part of the case), 1..=L pieces (L=8 quick, 24 thorough) with ends from positive lattices (duplicates, ends one ulp apart; shifted by 0/-1/-2.5 for polynomial pieces so that ends straddle 0), piece j's coefficients = pool of moderate numbers rotated by 3j, pool and k0.y times a common power of two (1 in 70% of cases, else 2^k with k uniform in ±250); all abscissae (ends, k0.x, evaluation points) times a common power of two 2^k (k in -100..40, 1 case in 5); 1 case in 6 has an OPEN-ENDED last piece (end = +inf, f64::MAX or 1e200); knot k0 with x strictly inside the first piece / exactly at its end / beyond it (>0 for logs), y any; evaluation points from the list's alphabet: at every end, one ulp either side, midpoints, beyond both extremes). Oracle: per-piece exact integrals (polynomials: exact dyadic powers, 384-bit division; logs: t·Q(ln t) closed form), cumulative magnitude W_j = |k0.y| + Σ_{l<=j}(M_l(left_l)+M_l(right_l)), tolerance 160(j+1)u·W_j (+1e-12·W_j for quartic pieces). Clauses: (1) same number of pieces, every end bit-identical; (2) first piece passes through k0; (3) adjacent pieces agree at every interior breakpoint; (4) every piece is an antiderivative of its integrand (F_i(b)-F_i(a) vs exact); (5) when k0.x < e_0: Piecewise::evaluate(t) = k0.y + ∫_{k0.x}^t f summed exactly over the pieces crossed; (6) indefinite(): first piece bit-identical to segments[0].indefinite(), clauses 1,3,4 again; (7) integral_iter (by value) and integral_iter_ref yield bit-identical pieces equal to Piecewise::integral, also when fed through iterator adaptors (filter / skip_while that keep everything; their size_hint lower bound is 0). Non-trivial: >=3 pieces and (k0.x strictly inside the first piece or an evaluation >= 2 breakpoints away from k0.x).".into()
     }
     fn cases(&self, tier: Tier) -> u64 {
-        tier.pick(80_000, 2_000_000)
+        tier.pick(80_000, 800_000)
     }
     fn strategy(&self, tier: Tier) -> BoxedStrategy<Case> {
         let l = tier.pick(8, 24);
@@ -313,17 +313,20 @@ impl Prop for C11 {
         if !bits_eq(&obs.int_ends, &ends) || !bits_eq(&obs.ind_ends, &ends) {
             fail!("{tyname}: breakpoints changed: in {:?}, integral {:?}, indefinite {:?}", ends, obs.int_ends, obs.ind_ends);
         }
-        if obs.iter_owned != obs.iter_ref || obs.iter_owned.len() != n || !obs.iter_owned.iter().zip(&obs.int_flat).all(|(a, b)| bits_eq(a, b)) || !obs.iter_ref.iter().zip(&obs.int_flat).all(|(a, b)| bits_eq(a, b)) {
+        // piece lists are compared bit for bit (a NaN constant - e.g. from an out-of-domain evaluation - equals itself)
+        let same_pieces = |x: &[Vec<f64>], y: &[Vec<f64>]| x.len() == y.len() && x.iter().zip(y).all(|(a, b)| bits_eq(a, b));
+        if !same_pieces(&obs.iter_owned, &obs.iter_ref) || obs.iter_owned.len() != n || !obs.iter_owned.iter().zip(&obs.int_flat).all(|(a, b)| bits_eq(a, b)) || !obs.iter_ref.iter().zip(&obs.int_flat).all(|(a, b)| bits_eq(a, b)) {
             fail!("{tyname}: integral_iter (by value) {:?}, integral_iter_ref {:?} and Piecewise::integral {:?} do not yield identical pieces", obs.iter_owned, obs.iter_ref, obs.int_flat);
         }
-        if obs.iter_owned_adapted != obs.iter_owned || obs.iter_ref_adapted != obs.iter_ref {
+        if !same_pieces(&obs.iter_owned_adapted, &obs.iter_owned) || !same_pieces(&obs.iter_ref_adapted, &obs.iter_ref) {
             fail!("{tyname}: integral_iter / integral_iter_ref fed through an iterator adaptor (filter / skip_while that keep everything) yield {:?} / {:?} instead of {:?}", obs.iter_owned_adapted, obs.iter_ref_adapted, obs.iter_owned);
         }
         {
             let all = &obs.iter_ref;
             let skip1: Vec<Vec<f64>> = all.iter().skip(1).cloned().collect();
             let step2: Vec<Vec<f64>> = all.iter().step_by(2).cloned().collect();
-            if obs.iter_skip1 != skip1 || obs.iter_step2 != step2 || obs.iter_nth_last.as_ref() != all.last() {
+            let nth_same = match (obs.iter_nth_last.as_ref(), all.last()) { (Some(a), Some(b)) => bits_eq(a, b), (None, None) => true, _ => false };
+            if !same_pieces(&obs.iter_skip1, &skip1) || !same_pieces(&obs.iter_step2, &step2) || !nth_same {
                 fail!("{tyname}: the segment-integration iterators give different pieces when consumed through skip(1) / step_by(2) / nth(last) than through next(): {:?} / {:?} / {:?} vs all pieces {:?}", obs.iter_skip1, obs.iter_step2, obs.iter_nth_last, all);
             }
         }
@@ -332,6 +335,14 @@ impl Prop for C11 {
         }
         // (a function with zero pieces is outside the property's "1..n pieces": what integral() does with it is not judged)
         let pv = |vals: &[f64], i: usize, which: usize| vals[4 * i + which];
+        // piece j's additive constant is computed from evaluations at k0.x and at every earlier breakpoint: the value
+        // clauses judge piece j only if all of those evaluations were inside C01's domain (see Integrand::terms_ok)
+        let mut chain_ind = vec![true; n];
+        for j in 1..n {
+            chain_ind[j] = chain_ind[j - 1] && pieces[j - 1].terms_ok(ends[j - 1]) && pieces[j].terms_ok(ends[j - 1]);
+        }
+        let k_ok = pieces[0].terms_ok(kx);
+        let chain_int: Vec<bool> = chain_ind.iter().map(|&c| c && k_ok).collect();
         // ---- clause 2: first piece through k0 ----
         ctx.comparisons += 1;
         let f0k = pv(&obs.int_piece_vals, 0, 0);
@@ -342,14 +353,14 @@ impl Prop for C11 {
         if pieces[0].terms_ok(kx) {
             ctx.ratio("first piece through k0", ratio(f0k, &d(ky), &tol0));
         }
-        for (name, vals, w) in [("integral(k0)", &obs.int_piece_vals, &w_int), ("indefinite()", &obs.ind_piece_vals, &w_ind)] {
+        for (name, vals, w, chain) in [("integral(k0)", &obs.int_piece_vals, &w_int, &chain_int), ("indefinite()", &obs.ind_piece_vals, &w_ind, &chain_ind)] {
             // ---- clause 3: continuity at interior breakpoints ----
             for i in 0..n.saturating_sub(1) {
                 let a = pv(vals, i, 1); // F_i(e_i)
                 let b = pv(vals, i + 1, 0); // F_{i+1}(e_i)  (left point of piece i+1 is e_i)
                 ctx.comparisons += 1;
                 let tol = factor(i + 1, &w[i + 1]);
-                if !pieces[i].terms_ok(ends[i]) || !pieces[i + 1].terms_ok(ends[i]) {
+                if !chain[i + 1] {
                     continue;
                 }
                 if !a.is_finite() || !b.is_finite() || !d(a).sub(&d(b)).abs().le(&tol) {
@@ -369,7 +380,7 @@ impl Prop for C11 {
                 ctx.comparisons += 1;
                 let ma = pieces[i].maj(a);
                 let mb = pieces[i].maj(b);
-                if !in_range(&ma, 800) || !in_range(&mb, 800) || !pieces[i].terms_ok(a) || !pieces[i].terms_ok(b) {
+                if !in_range(&ma, 800) || !in_range(&mb, 800) || !chain[i] || !pieces[i].terms_ok(a) || !pieces[i].terms_ok(b) {
                     continue;
                 }
                 let tol = factor(i, &w[i].add(&ma).add(&mb));
@@ -401,7 +412,7 @@ impl Prop for C11 {
                     exact = exact.add(&pieces[j].integral(ends[j - 1], t));
                 }
                 let mt = pieces[j].maj(t);
-                if !in_range(&mt, 800) || !pieces[j].terms_ok(t) {
+                if !in_range(&mt, 800) || !chain_int[j] || !pieces[j].terms_ok(t) {
                     continue;
                 }
                 let tol = factor(j, &w_int[j].add(&mt));
